@@ -330,6 +330,8 @@ func (fr *Frame) execCall(ins ssa.CallInstruction, cc *ssa.CallCommon) []Term {
 		return res
 	}
 	ord := fr.callOrdinal(ci.key)
+	fr.callSpecAssumesKind(ci, "assume_before", args, argTypes)
+	reacquire := fr.callSpecReleases(ci, ins)
 	fr.callSpecAsserts(ci, ord, args, argTypes)
 	fr.ghostAtCallT(ci, "before", args, argTypes)
 	var res []Term
@@ -349,19 +351,70 @@ func (fr *Frame) execCall(ins ssa.CallInstruction, cc *ssa.CallCommon) []Term {
 		c.havoc(fr.st, m, "unmodelled call "+shortKey(ci.key))
 		res = fr.freshResults(ci.sig.Results(), "r_"+lastSeg(ci.key))
 	}
+	for _, f := range reacquire {
+		f()
+	}
+	fr.pendingRes, fr.pendingResT = res, ci.sig.Results()
+	fr.callSpecAssumesKind(ci, "assume", args, argTypes)
+	fr.pendingRes, fr.pendingResT = nil, nil
 	fr.ghostAtCallAfterT(ci, args, res, argTypes, ci.sig.Results())
-	fr.callSpecAssumes(ci)
 	return res
 }
 
+// callSpecReleases: `at call[k] X releases obj.mu` — the callee waits on a condition: the
+// monitor of obj.mu is released before the call (invariant asserted) and re-acquired after it
+// (protected state havocked, invariant assumed).
+func (fr *Frame) callSpecReleases(ci *calleeInfo, ins ssa.CallInstruction) []func() {
+	top := fr.topFrame()
+	if fr.top != nil || top.fc == nil {
+		return nil
+	}
+	var after []func()
+	for _, cs := range top.fc.CallSpecs {
+		if cs.Kind != "releases" || !calleeMatches(ci, cs.Callee) {
+			continue
+		}
+		n := top.callOrd["rel:"+cs.Src]
+		top.callOrd["rel:"+cs.Src] = n + 1
+		if cs.Ord >= 0 && cs.Ord != n {
+			continue
+		}
+		sel, ok := cs.E.(ESel)
+		if !ok {
+			evalFail("releases needs obj.mu")
+		}
+		env := fr.curEnv()
+		objB := env.eval(sel.X)
+		pt, ok := objB.Ty.Underlying().(*types.Pointer)
+		if !ok {
+			evalFail("releases: %s is not a pointer", exprString(sel.X))
+		}
+		mon := fr.c.V.monitorFor(pt.Elem(), sel.Name)
+		if mon == nil {
+			evalFail("releases: no monitor for %s", exprString(cs.E))
+		}
+		path, _ := findField(pt.Elem().Underlying().(*types.Struct), sel.Name)
+		mu := fr.c.fieldPtr(objB.T, pt.Elem(), path[0])
+		fr.oblige("monitor.held", "", sel2(fr.c.ghost(fr.st, "held"), mu), ins.Pos(), "wait with the mutex held")
+		fr.release(mon, objB.T, objB.Ty, mu, ins.Pos(), "wait")
+		top.callOrd["fired:"+cs.Src] = 1
+		after = append(after, func() { fr.acquire(mon, objB.T, objB.Ty, mu) })
+	}
+	return after
+}
+
+func sel2(arr, idx Term) Term { return sel(arr, idx, SBool) }
+
 // callSpecAssumes: explicit, listed assumptions anchored after a call (`at call[k] X assume e`).
-func (fr *Frame) callSpecAssumes(ci *calleeInfo) {
+func (fr *Frame) callSpecAssumes(ci *calleeInfo) { fr.callSpecAssumesKind(ci, "assume", nil, nil) }
+
+func (fr *Frame) callSpecAssumesKind(ci *calleeInfo, kind string, args []Term, argTypes []types.Type) {
 	top := fr.topFrame()
 	if top.fc == nil {
 		return
 	}
 	for _, cs := range top.fc.CallSpecs {
-		if cs.Kind != "assume" || !calleeMatches(ci, cs.Callee) {
+		if cs.Kind != kind || !calleeMatches(ci, cs.Callee) {
 			continue
 		}
 		n := top.callOrd["assume:"+cs.Callee+":"+cs.Src]
@@ -370,6 +423,20 @@ func (fr *Frame) callSpecAssumes(ci *calleeInfo) {
 			continue
 		}
 		env := fr.anchorEnv()
+		for i, a := range args {
+			var ty types.Type
+			if i < len(argTypes) {
+				ty = argTypes[i]
+			}
+			env.vars[fmt.Sprintf("arg%d", i)] = Binding{a, ty}
+		}
+		for i, r := range fr.pendingRes {
+			var ty types.Type
+			if fr.pendingResT != nil && i < fr.pendingResT.Len() {
+				ty = fr.pendingResT.At(i).Type()
+			}
+			env.vars[fmt.Sprintf("res%d", i)] = Binding{r, ty}
+		}
 		fr.c.assume(implies(fr.reach, env.mustBool(cs.E)))
 		top.callOrd["fired:"+cs.Src] = 1
 		fr.c.assumed["explicit assumption in contract of "+shortKey(top.fc.Key)+": "+cs.Src] = true
@@ -487,6 +554,25 @@ func (fr *Frame) applyContract(ins ssa.CallInstruction, ci *calleeInfo, args []T
 	post := pre.clone()
 	if !fc.Pure {
 		m := fr.preciseModSet(fc, envPre)
+		if fr.inLocalOnly() {
+			if m.all {
+				fr.oblige("loop.local", "", tFalse, ins.Pos(), "call of "+shortKey(fc.Key)+" (modifies everything) inside a `modifies local` loop")
+			}
+			for _, hn := range m.heapNames() {
+				if !strings.HasPrefix(hn, "H_") {
+					continue
+				}
+				if m.heapAll[hn] || len(m.fields[hn]) > 0 || m.elems[hn] {
+					fr.oblige("loop.local", "", tFalse, ins.Pos(), "call of "+shortKey(fc.Key)+" writes unlocalised cells inside a `modifies local` loop")
+				}
+				for _, l := range m.locs[hn] {
+					fr.localWriteCheck(l, ins.Pos())
+				}
+			}
+			for _, b := range m.regionBases {
+				fr.localWriteCheck(b, ins.Pos())
+			}
+		}
 		m.alloc = true // the callee may allocate: the counter moves up
 		c.havoc(post, m, "call "+shortKey(ci.key))
 	}
@@ -556,6 +642,30 @@ func (fr *Frame) preciseModSet(fc *FuncContract, env *Env) *ModSet {
 			}
 			evalFail("modifies %s: not a location", x.Name)
 		case ESel:
+			// T.f / pkg.T.f: field f of every object of struct type T
+			if tn := typeNameOf(x.X, env); tn != nil {
+				ts, ok := tn.Type().Underlying().(*types.Struct)
+				if !ok {
+					evalFail("modifies %s: %s is not a struct type", exprString(x), tn.Name())
+				}
+				p2, ft2 := findField(ts, x.Name)
+				if len(p2) != 1 {
+					evalFail("modifies %s: no such field", exprString(x))
+				}
+				for _, lp := range c.leafPaths(ft2) {
+					srt := c.sortOf(lp.t)
+					hn := heapName(srt)
+					c.heapSort[hn] = srt
+					if len(lp.steps) == 0 {
+						m.addField(hn, c.V.fieldID(tn.Type(), p2[0]))
+					} else if fid, isF := lp.lastFieldID(); isF {
+						m.addField(hn, fid)
+					} else {
+						m.elems[hn] = true
+					}
+				}
+				continue
+			}
 			v := env.eval(x.X)
 			pt, ok := v.Ty.Underlying().(*types.Pointer)
 			if !ok {
@@ -614,6 +724,26 @@ func (fr *Frame) preciseModSet(fc *FuncContract, env *Env) *ModSet {
 						fmt.Sprintf("(<= (soff %s) (eidx %s))", v.T.S, root), fmt.Sprintf("(< (eidx %s) (+ (soff %s) (scap %s)))", root, v.T.S, v.T.S))
 					m.regions[hn] = append(m.regions[hn], "(and "+strings.Join(cond, " ")+")")
 				}
+				m.regionBases = append(m.regionBases, sliceBase(v.T))
+			case "elemrange":
+				// element cells lo <= i < hi (relative to the slice start) of a slice's array
+				v := env.eval(x.Args[0])
+				lo := env.eval(x.Args[1])
+				hi := env.eval(x.Args[2])
+				sl, ok := v.Ty.Underlying().(*types.Slice)
+				if !ok {
+					evalFail("modifies elemrange(s, lo, hi): not a slice")
+				}
+				for _, lp := range c.leafPaths(sl.Elem()) {
+					srt := c.sortOf(lp.t)
+					hn := heapName(srt)
+					c.heapSort[hn] = srt
+					cond, root := lp.match("p")
+					cond = append(cond, fmt.Sprintf("((_ is pelem) %s)", root), fmt.Sprintf("(= (ebase %s) (sbase %s))", root, v.T.S),
+						fmt.Sprintf("(<= (+ (soff %s) %s) (eidx %s))", v.T.S, lo.T.S, root), fmt.Sprintf("(< (eidx %s) (+ (soff %s) %s))", root, v.T.S, hi.T.S))
+					m.regions[hn] = append(m.regions[hn], "(and "+strings.Join(cond, " ")+")")
+				}
+				m.regionBases = append(m.regionBases, sliceBase(v.T))
 			case "region":
 				// everything inside the object p points into
 				v := env.eval(x.Args[0])
@@ -627,6 +757,7 @@ func (fr *Frame) preciseModSet(fc *FuncContract, env *Env) *ModSet {
 					}
 				}
 				m.regions["*region"] = append(m.regions["*region"], base.S)
+				m.regionBases = append(m.regionBases, base)
 			case "mapof":
 				v := env.eval(x.Args[0])
 				mt, ok := v.Ty.Underlying().(*types.Map)
@@ -657,7 +788,7 @@ func (fr *Frame) inline(ins ssa.CallInstruction, ci *calleeInfo, args []Term) []
 	c := fr.c
 	sub := &Frame{c: c, fn: ci.fn, fc: ci.fc, parent: fr, top: fr.topFrame(), depth: fr.depth + 1,
 		vals: map[ssa.Value]Term{}, tuples: map[ssa.Value][]Term{}, closures: map[ssa.Value]*closureVal{},
-		entry: fr.st.clone(), st: fr.st.clone(), reach: fr.reach, params: args}
+		entry: fr.st.clone(), st: fr.st.clone(), reach: fr.reach, params: args, localOnly: fr.inLocalOnly()}
 	if ci.closure != nil {
 		sub.freeVars = ci.closure.binds
 	} else if len(ci.fn.FreeVars) > 0 {
@@ -977,4 +1108,34 @@ func (fr *Frame) curEnv() *Env {
 		return Binding{}, false
 	}
 	return env
+}
+
+// typeNameOf resolves T or pkg.T (a struct type name, not a variable) in a modifies clause.
+func typeNameOf(e Expr, env *Env) *types.TypeName {
+	if env.pkg == nil {
+		return nil
+	}
+	switch x := e.(type) {
+	case EIdent:
+		if _, bound := env.vars[x.Name]; bound {
+			return nil
+		}
+		tn, _ := env.pkg.Scope().Lookup(x.Name).(*types.TypeName)
+		return tn
+	case ESel:
+		id, ok := x.X.(EIdent)
+		if !ok {
+			return nil
+		}
+		if _, bound := env.vars[id.Name]; bound {
+			return nil
+		}
+		for _, imp := range env.pkg.Imports() {
+			if imp.Name() == id.Name {
+				tn, _ := imp.Scope().Lookup(x.Name).(*types.TypeName)
+				return tn
+			}
+		}
+	}
+	return nil
 }
